@@ -341,3 +341,131 @@ func Respell(t *rapid.T, p *Prog) RespellInfo {
 	}
 	return info
 }
+
+// ---------------------------------------------------------------------------
+// C09: near-miss comments on a program without annotations
+
+var nearMissLines = []string{
+	"// see the @immutable and @constructor New docs; this type is not @testonly",
+	"// TODO: add @packageonly later, and @implements io.Reader",
+	"// @Immutable",
+	"// @IMMUTABLE",
+	"// @immutablex",
+	"// @constructors New",
+	"// @testonlyish",
+	"// @ immutable",
+	"// @ constructor New",
+	"//@Constructor New",
+	"/* @immutable */",
+	"/* @constructor New */",
+	"/* @testonly */",
+	"/*\n@packageonly\n*/",
+	"// @mutable",     // inert on a type / on a field of a struct that is not @immutable
+	"// @constructor", // no names: documented as not recognised
+	"// @constructor 9lives",
+	"// @implements",
+	"// x @immutable",
+	"// -@testonly",
+	"// @packageonlyy a, b",
+	"// @ignoreX IMM01",
+	"// @Ignore ALL",
+}
+
+// annotation lines that ARE well-formed; only usable at inert attachment sites
+var wellFormedAnnots = []string{"// @immutable", "// @constructor New", "// @testonly", "// @packageonly", "// @packageonly zz", "// @implements Stringer", "// @mutable"}
+
+type SaltInfo struct {
+	DocNearMiss, Trailing, Detached, Local, FieldDoc, VarDoc int
+}
+
+// SaltNearMiss sprinkles comments that mention the annotation keywords without
+// being annotations: malformed lines as doc comments, well-formed lines at
+// attachment sites that are inert (trailing comments, comments detached from
+// the declaration by a blank line, local declarations, package-level var
+// declarations, struct fields of unannotated types).
+func SaltNearMiss(t *rapid.T, p *Prog) SaltInfo {
+	var info SaltInfo
+	pick := func(pool []string, label string) string {
+		return pool[rapid.IntRange(0, len(pool)-1).Draw(t, label)]
+	}
+	chance := func(label string, pct int) bool { return rapid.IntRange(0, 99).Draw(t, label) < pct }
+	localSeq := 0
+	var saltBody func(body []Stmt) []Stmt
+	saltBody = func(body []Stmt) []Stmt {
+		var out []Stmt
+		for _, s := range body {
+			if chance("localDecl", 12) {
+				localSeq++
+				n := fmt.Sprintf("loc%d", localSeq)
+				out = append(out,
+					&Filler{Text: pick(wellFormedAnnots, "localAnnot")},
+					&Filler{Text: fmt.Sprintf("type %sT struct{ X int }", n)},
+					&Filler{Text: fmt.Sprintf("var %s %sT", n, n)},
+					&Filler{Text: fmt.Sprintf("%s.X = 1", n)},
+					&Filler{Text: fmt.Sprintf("_ = %sT{}", n)},
+					&Filler{Text: fmt.Sprintf("_ = %s", n)})
+				info.Local++
+			}
+			if w, ok := s.(*Wrap); ok {
+				w.Body = saltBody(w.Body)
+			}
+			if chance("stmtTrailing", 10) {
+				s.stmtNode().Trailing = pick(wellFormedAnnots, "stmtTrailAnnot")
+				info.Trailing++
+			}
+			out = append(out, s)
+		}
+		return out
+	}
+	for _, pkg := range p.Pkgs {
+		for _, f := range pkg.Files {
+			for _, d := range f.Decls {
+				switch d := d.(type) {
+				case *TypeDecl:
+					if chance("typeDoc", 60) {
+						n := rapid.IntRange(1, 3).Draw(t, "nDoc")
+						for i := 0; i < n; i++ {
+							d.ExtraDoc = append(d.ExtraDoc, strings.Split(pick(nearMissLines, "docLine"), "\n")...)
+						}
+						info.DocNearMiss++
+					}
+					if chance("typeTrailing", 25) {
+						d.Trailing = pick(wellFormedAnnots, "typeTrailAnnot")
+						info.Trailing++
+					}
+					if chance("typeDetached", 25) {
+						d.Before = append(d.Before, pick(wellFormedAnnots, "detachedAnnot"), "")
+						info.Detached++
+					}
+					for _, fl := range d.Fields {
+						if chance("fieldDoc", 25) {
+							fl.Doc = append(fl.Doc, pick(wellFormedAnnots, "fieldAnnot"))
+							info.FieldDoc++
+						}
+					}
+				case *FuncDecl:
+					if chance("funcDoc", 40) {
+						// @immutable / @constructor / @implements / @mutable mean nothing on a function;
+						// @testonly / @packageonly would, so only malformed spellings of those
+						d.ExtraDoc = append(d.ExtraDoc, pick([]string{"// @immutable", "// @constructor New", "// @implements Stringer", "// @mutable", "// @Testonly", "// @testonlyx", "/* @testonly */", "// @ packageonly", "// see @testonly", "// @PackageOnly a"}, "funcDocLine"))
+						info.DocNearMiss++
+					}
+					if chance("funcDetached", 20) {
+						d.Before = append(d.Before, pick([]string{"// @testonly", "// @packageonly", "// @packageonly zz"}, "funcDetachedAnnot"), "")
+						info.Detached++
+					}
+					d.Body = saltBody(d.Body)
+				case *VarDecl:
+					if chance("varDoc", 50) {
+						d.Before = append(d.Before, pick(wellFormedAnnots, "varAnnot"))
+						info.VarDoc++
+					}
+					if d.Closure != nil {
+						d.Closure.Body = saltBody(d.Closure.Body)
+					}
+				}
+			}
+		}
+	}
+	return info
+}
